@@ -1025,7 +1025,9 @@ func writeKey(w Write) string {
 	if w.Field != nil {
 		f = w.Field.Name()
 	}
-	return fmt.Sprintf("%p|%s|%v|%s|%s", w.Instr, w.Kind, w.Root, f, strings.Join(w.Via, ">"))
+	// (the chain of calls a write is reached through is kept for the report only: with it in the key a cycle of
+	// calls - a generic helper and the function values it may call - would produce a new write on every round)
+	return fmt.Sprintf("%p|%s|%v|%s", w.Instr, w.Kind, w.Root, f)
 }
 
 // Describe renders a write for a report.
